@@ -156,7 +156,7 @@ func zzC10ServerPicksOfferedKeyShare() {
 //verif:stub (*math/rand.Rand).Shuffle zzStubShuffleIdentity
 //verif:stub (*utls.Conn).sendAlert zzStubSendAlert
 //verif:expect end
-//verif:doc C10 kernels: for every predefined parrot, every version it advertises on the wire is accepted by pickTLSVersion; every offered TLS 1.3 suite is accepted by checkServerHelloOrHRR (session id echoed); every offered TLS 1.0-1.2 suite that utls implements is accepted by pickCipherSuite; every offered ALPN protocol is accepted by checkALPN; every signature algorithm in the wire signature_algorithms extension that utls implements passes the acceptance test the TLS 1.2 key agreement applies to the server's choice.
+//verif:doc C10 kernels: for every predefined parrot (thorough tier: also for the connection built from the fingerprint of the parrot's own hello), every version it advertises on the wire is accepted by pickTLSVersion; every offered TLS 1.3 suite is accepted by checkServerHelloOrHRR (session id echoed); every offered TLS 1.0-1.2 suite that utls implements is accepted by pickCipherSuite; every offered ALPN protocol is accepted by checkALPN; every signature algorithm in the wire signature_algorithms extension that utls implements passes the acceptance test the TLS 1.2 key agreement applies to the server's choice.
 func zzC10ServerPicksOfferedVersionAndSuite() {
 	p := zzChooseParrot()
 	cfg := zzConfig("example.com")
@@ -165,6 +165,15 @@ func zzC10ServerPicksOfferedVersionAndSuite() {
 	if err != nil {
 		verifReach("end")
 		return
+	}
+	if verifThorough() && verifBool("fingerprinted-copy") {
+		// the same kernels on a connection built from the fingerprint of the parrot's hello
+		uc2, ferr, berr := zzReapply(&Fingerprinter{}, zzRecord(uc.HandshakeState.Hello.Raw), "example.org")
+		if ferr != nil || berr != nil {
+			verifFail("fingerprinted-copy-builds", p.name)
+			return
+		}
+		uc = uc2
 	}
 	h, why := zzRefParseClientHello(uc.HandshakeState.Hello.Raw)
 	if why != "" {
